@@ -1425,3 +1425,42 @@ def norm_cond(c):
         else:
             break
     return c
+
+
+# --------------------------------------------------------------------------------------
+# spelling-independent view of path decisions
+
+_REL_NEG = {'==': '!=', '!=': '==', '<': '>=', '>=': '<', '>': '<=', '<=': '>'}
+_REL_SWAP = {'==': '==', '!=': '!=', '<': '>', '>': '<', '<=': '>=', '>=': '<='}
+
+
+def relation(cond, taken):
+    """(op, a, b) with casts stripped such that `a op b` holds when `cond` evaluated to `taken`; a bare value tested for truth is
+    `value != 0`; logical negations are folded.  None for conjunctions/disjunctions and other shapes."""
+    c = norm_cond(cond)
+    while is_sym(c) and c.op == '!':
+        taken = not taken
+        c = norm_cond(c.args[0])
+    if is_sym(c) and len(c.args) == 2 and c.op in _REL_NEG:
+        op, a, b = c.op, strip_casts(c.args[0]), strip_casts(c.args[1])
+    elif is_sym(c) and c.op not in ('&&', '||'):
+        op, a, b = '!=', strip_casts(c), 0
+    else:
+        return None
+    if not taken:
+        op = _REL_NEG[op]
+    return (op, a, b)
+
+
+def relations(path):
+    return [r for r in (relation(c, t) for c, t, _ in path.decisions) if r is not None]
+
+
+def has_relation(rels, op, pa, pb):
+    """some established relation is `x op y` with pa(x) and pb(y) - or its mirror image `y op' x`"""
+    for rop, a, b in rels:
+        if rop == op and pa(a) and pb(b):
+            return True
+        if _REL_SWAP[rop] == op and pa(b) and pb(a):
+            return True
+    return False
